@@ -21,8 +21,16 @@ type Coproc struct {
 	dead   bool
 }
 
+// StartCoprocArgs starts a co-process with arguments.
+func StartCoprocArgs(path string, args []string, env ...string) (*Coproc, error) {
+	return startCoproc(exec.Command(path, args...), env)
+}
+
 func StartCoproc(path string, env ...string) (*Coproc, error) {
-	cmd := exec.Command(path)
+	return startCoproc(exec.Command(path), env)
+}
+
+func startCoproc(cmd *exec.Cmd, env []string) (*Coproc, error) {
 	cmd.Env = append(os.Environ(), env...)
 	in, err := cmd.StdinPipe()
 	if err != nil {
